@@ -263,6 +263,23 @@ CLAIMED = {
                      "correspondence on structured rings + exact-rational orientation oracle",
         "design_ref": "DESIGN.md section 7 (C16)",
     },
+    "C17": {
+        "category": "proof",
+        "text": "Theorems for ANY source (any bytes, any declared counts, lengths and offsets, any fault plan), with or without "
+                "index, and any history of reader calls: C17_requests, C17_index_requests, C17_record_requests - every "
+                "pre-sizing request the reader makes (Vec::with_capacity / vec![x; n], recorded as Reserve nodes of the reading "
+                "programs) is at most 32 KiB (min(n, 1024) elements of at most 32 bytes), so a few hundred bytes declaring "
+                "billions of points, parts or index entries cannot trigger a giant allocation. PARTIAL: that all other memory "
+                "grows only with data actually read (hence peak <= 64 x input + constant) depends on Vec's growth policy and the "
+                "allocator: measured, per input, by a counting global allocator in the harness on valid files, every "
+                "single-field boundary mutant, consistent-but-unbacked counts, fully backed records with thousands of "
+                "descending/empty part offsets, and indexes announcing more entries than they hold (around the 1024 cap).",
+        "note": COMMON_NOTE + "The ledger is part of the model (Model/Prog.v, Reserve); that the code has no other pre-sizing "
+                "site is checked by the allocator measurement, not by the correspondence of results.",
+        "technique": "Coq proof (bounded-reserve closure property of reading programs) + counting-allocator measurement on the "
+                     "real reader",
+        "design_ref": "DESIGN.md section 7 (C17)",
+    },
     "C18": {
         "text": "Theorem for every shape value (unbounded part counts and lengths): bytes emitted by write_to = size_in_bytes, "
                 "record content length = (size+4)/2 exactly (C18_size, C18_record_len, C18_record_bytes; closed under the global "
